@@ -48,6 +48,34 @@ func hasChanOp(n ast.Node) bool {
 	return found
 }
 
+// hasFSCall reports whether n (not descending into function literals) calls a function of
+// package os: file-system operations are shared state outside the Go memory model, so they are
+// scheduling points too (a wrongly locked critical section made only of file operations would
+// otherwise execute atomically under the cooperative scheduler).
+func hasFSCall(n ast.Node) bool {
+	found := false
+	ast.Inspect(n, func(x ast.Node) bool {
+		if x == nil || found {
+			return false
+		}
+		switch v := x.(type) {
+		case *ast.FuncLit:
+			return false
+		case *ast.CallExpr:
+			if sel, ok := v.Fun.(*ast.SelectorExpr); ok {
+				if id, ok := sel.X.(*ast.Ident); ok && id.Name == "os" {
+					switch sel.Sel.Name {
+					case "Create", "Open", "OpenFile", "Remove", "RemoveAll", "Rename", "Mkdir", "MkdirAll", "Stat", "ReadDir", "ReadFile", "WriteFile", "Truncate":
+						found = true
+					}
+				}
+			}
+		}
+		return true
+	})
+	return found
+}
+
 func pointStmt(pos token.Pos, what string) ast.Stmt {
 	p := fset.Position(pos)
 	lbl := fmt.Sprintf("%s:%d %s", filepath.Base(p.Filename), p.Line, what)
@@ -71,11 +99,17 @@ func needsPoint(s ast.Stmt) (bool, string) {
 		if hasChanOp(s) {
 			return true, "chanop"
 		}
+		if hasFSCall(s) {
+			return true, "fsop"
+		}
 	case *ast.DeferStmt:
 		return false, ""
 	case *ast.IfStmt:
 		if (v.Init != nil && hasChanOp(v.Init)) || hasChanOp(v.Cond) {
 			return true, "if-chanop"
+		}
+		if (v.Init != nil && hasFSCall(v.Init)) || hasFSCall(v.Cond) {
+			return true, "if-fsop"
 		}
 	case *ast.SwitchStmt:
 		if (v.Init != nil && hasChanOp(v.Init)) || (v.Tag != nil && hasChanOp(v.Tag)) {
